@@ -521,7 +521,7 @@ PROPS = {
     ),
     "C18": dict(
         level="proof",
-        claim="Kani/CBMC proofs of the digital core of the real AymPrecise generator: tone period 12 bits (0 as 1) and flip every TP ticks; noise period 5 bits, 17-bit LFSR with taps 0 and 3 shifting every 2*NP ticks; envelope period 16 bits, level sequence of all 16 shapes equal to the documented closed form; register decode R0-R13 incl. mixer gates and volume/envelope select; DAC level index always < 32 (the assert is unreachable), DAC tables strictly increasing in the 4-bit volume; stereo placement per mode. Port side: register select masks to 4 bits and data read-back returns the last written value (Verus on ZXAyChip; Kani read_io).",
+        claim="Kani/CBMC proofs of the digital core of the real AymPrecise generator: tone period 12 bits (0 as 1) and flip every TP ticks; noise period 5 bits, 17-bit LFSR with taps 0 and 3 shifting every 2*NP ticks; envelope period 16 bits, level sequence of all 16 shapes equal to the documented closed form; register decode R0-R13 incl. mixer gates and volume/envelope select; DAC level index always < 32 (the assert is unreachable), DAC tables strictly increasing in the 4-bit volume; stereo placement per mode. Port side: register select masks to 4 bits and data read-back returns the last written value (Verus on ZXAyChip; Kani read_io). Controller side (unit ctl): an AY data-port write stores the value and forwards it to the generator under the selected register number; no other port write reaches the generator. Mixer stage (Kani, twin chip): update_mixer's two sums are exactly the DAC levels of (tone|tone_off)&(noise|noise_off) times volume-or-envelope level, panned per channel, for the AY and YM tables; writing the shape register restarts the envelope at the shape's start level.",
         note="Out of reach and NOT claimed: the f64 FIR decimation / DC filter (sample bounds over time, spectral content). The resampler's phase invariant 0 <= x < 1 for every sample rate 8-384 kHz IS checked (thorough tier) and found a defect (phase escaping at rates below 27.7 kHz), repaired. One generator tick = one update_mixer call = f_clk/8, so tone frequency f_clk/(16*TP) etc. follow from the tick contracts by induction (not a mechanised lemma).",
         kani=[K_AYM, K_AYM_FLOAT, K_READ_IO],
         verus=["ctl"],
@@ -530,7 +530,7 @@ PROPS = {
     ),
     "C19": dict(
         level="proof",
-        claim="Verus proof on the real ZXMixer queue logic: process appends exactly the samples between the previous and the current sample index of the frame position (never beyond floor(rate/50)), new_frame pads to floor(rate/50) and resets the cursor, so a host draining at frame boundaries gets exactly floor(rate/50) per frame and the queue stays below two frames' worth for any drain behaviour; Kani proofs of the float expressions: sample index <= spf, monotone, = floor(spf*position); frame position in [0,1] and monotone; beeper level = 0.5*speaker + 0.1*MIC, finite and bounded; write_io sets the beeper bits from the ULA write (Verus, unit ctl).",
+        claim="Verus proof on the real ZXMixer queue logic: process appends exactly the samples between the previous and the current sample index of the frame position (never beyond floor(rate/50)), new_frame pads to floor(rate/50) and resets the cursor, so a host draining at frame boundaries gets exactly floor(rate/50) per frame and the queue stays below two frames' worth for any drain behaviour; Kani proofs of the float expressions: sample index <= spf, monotone, = floor(spf*position); frame position in [0,1] and monotone; beeper level = 0.5*speaker + 0.1*MIC, finite and bounded; write_io sets the beeper bits from the ULA write (Verus, unit ctl). Controller side (unit ctl): every bus wait calls mixer.process once (after the tape), every frame end calls mixer.new_frame.",
         note="Not claimed: AY contribution values and master volume scaling (float path of C18). Edge placement 'within one sample' is the composition of the process contract with the write_io contract, not a mechanised lemma. The two slow float harnesses run in the thorough tier only.",
         verus=["mixer", "ctl"],
         kani=[K_AUDIO, K_AUDIO_SLOW],
@@ -577,7 +577,7 @@ PROPS = {
     ),
     "C08": dict(
         level="proof",
-        claim="Deductive proof (Verus): the address helpers are the inverse of the statement's offset formula (bijection lemma); ZXScreen::update changes exactly the shadow cell whose display offset is written; process_clocks draws exactly the blocks the beam passed since the previous call, each pixel = bit 7-(x mod 8) coloured by ink/paper/BRIGHT/FLASH of its attribute (nested loop invariants over a ghost pixel map); new_frame delivers the back buffer and toggles the flash phase every 16 frames; lemmas: a bus write keeps shadow == RAM (invariant K), a full pass over an unchanged shadow yields the standard decode of RAM. write_internal forwards every RAM write through any window to the screen (ghost call log); a syntactic frame obligation requires every behind-the-bus RAM writer to refresh the shadow.",
+        claim="Deductive proof (Verus): the address helpers are the inverse of the statement's offset formula (bijection lemma); ZXScreen::update changes exactly the shadow cell whose display offset is written; process_clocks draws exactly the blocks the beam passed since the previous call, each pixel = bit 7-(x mod 8) coloured by ink/paper/BRIGHT/FLASH of its attribute (nested loop invariants over a ghost pixel map); new_frame delivers the back buffer and toggles the flash phase every 16 frames; lemmas: a bus write keeps shadow == RAM (invariant K), a full pass over an unchanged shadow yields the standard decode of RAM. write_internal forwards every RAM write through any window to the screen (ghost call log); a syntactic frame obligation requires every behind-the-bus RAM writer to refresh the shadow. Controller side (unit ctl, ghost call logs): every bus wait hands the new in-frame clock to screen.process_clocks, every frame end calls screen.new_frame, and an accepted paging write switches the display to the bank bit 3 selects - nothing else does.",
         note="Assumes host FrameBuffer contract; Box<[T;N]> treated as the owned array; the composition over a frame (K maintained by every writer + process_clocks called with the frame clock from wait_internal + switch_bank selecting bank 5/7) is argued from these contracts, not a single mechanised theorem. Error paths of loaders (partial page write then Err) are not covered. One defect repaired (pokes bypassed the shadow).",
         verus=["screen", "ctl"],
         kani=[K_MACHINE, K_REFRESH],
@@ -586,7 +586,7 @@ PROPS = {
     ),
     "C09": dict(
         level="proof",
-        claim="Deductive proof (Verus, all T-states, all write sequences by per-call contracts): next_border_pixel is within 16 px (the statement's tolerance) of the beam position defined by 2 px/T, 224/228 T per line and first picture pixel at 14336/14362; set_border paints exactly the pixels the beam passed since the previous write with the previous colour and nothing else; new_frame completes the frame with the last colour and repaints everything when no write happened; set_border_color / the ULA arm of write_io make the reported border colour the low three bits of the written byte.",
+        claim="Deductive proof (Verus, all T-states, all write sequences by per-call contracts): next_border_pixel is within 16 px (the statement's tolerance) of the beam position defined by 2 px/T, 224/228 T per line and first picture pixel at 14336/14362; set_border paints exactly the pixels the beam passed since the previous write with the previous colour and nothing else; new_frame completes the frame with the last colour and repaints everything when no write happened; set_border_color / the ULA arm of write_io make the reported border colour the low three bits of the written byte. Controller side (unit ctl): an ULA write hands the border device the new colour together with the in-frame clock at which the write happens, every frame end calls border.new_frame, and no other port or bus wait changes the border log.",
         note="Assumes host FrameBuffer contract (set_color changes exactly one in-range pixel; in-range is proved at every call). The per-pixel statement over a whole frame follows by induction over the per-call contracts (not a Verus lemma). Snapshot border field: covered with C13/C14.",
         verus=["border", "ctl"],
         kani=[K_MACHINE],
